@@ -210,9 +210,15 @@ Proof. destruct (start t p k h); reflexivity. Qed.
 
 (* stepping tactic: compute the step for a known stack *)
 Ltac stp Hk :=
-  erewrite step_eq; [| rewrite <- Hk; cbn [kstep ret cret app got];
-    repeat (match goal with H : ?c = _ |- context [if ?c then _ else _] => rewrite H end);
-    rewrite ?start_eta; cbn [app]; reflexivity].
+  erewrite step_eq; [| rewrite <- Hk; cbn [kstep ret cret app got kloop];
+    try change ((ST_RUNNING =? ST_WAITING) || (ST_RUNNING =? ST_DONE) || (ST_RUNNING =? ST_SAVING)) with false;
+    try change ((ST_SAVING =? ST_WAITING) || (ST_SAVING =? ST_DONE) || (ST_SAVING =? ST_SAVING)) with true;
+    cbv iota; unfold kloop;
+    repeat (match goal with H : ?c = _ |- context [match ?c with _ => _ end] => rewrite H end);
+    try (match goal with H : release ?a ?b = _ |- _ => rewrite H end);
+    try (match goal with |- context [start ?a ?b ?c ?d] =>
+           let x := fresh "st0" in set (x := start a b c d); rewrite (surjective_pairing x); subst x end);
+    cbn [app]; rewrite ?app_nil_r; reflexivity].
 
 Definition client_top (k : stack rwc) : Prop :=
   match k with [] => True | WReadW _ :: _ => True | CRead _ :: _ => True | _ => False end.
@@ -237,7 +243,8 @@ Ltac local_prems Hk Hr :=
   try (apply client_not_wlink, start_client);
   try (apply client_not_held, start_client);
   try (apply pop_ok_nonpopper; cbn [mk stk]; rewrite upd_same; first [apply client_not_popper, start_client | cbn; tauto]);
-  try (intros P; exfalso; revert P; apply client_not_popper, start_client).
+  try (intros P; exfalso; revert P; apply client_not_popper, start_client);
+  try (unfold pop_ok; cbn [mk stk mem]; rewrite upd_same; exact Logic.I).
 
 Ltac local g t r' Hk Hr :=
   exists (gset_role g t r'); apply inv_local; auto; local_prems Hk Hr.
@@ -259,6 +266,206 @@ Lemma not_listed_own sd : ~ listed (ROwn sd). Proof. intros [sd' [H|H]]; discrim
 Lemma not_listed_idle : ~ listed RIdle. Proof. intros [sd' [H|H]]; discriminate. Qed.
 Lemma not_listed_pre sd : ~ listed (RWait sd Pre). Proof. intros [sd' [H|H]]; discriminate. Qed.
 #[export] Hint Resolve not_listed_woken not_listed_resumed not_listed_own not_listed_idle not_listed_pre : core.
+
+(* ---------- arithmetic of the counts ---------- *)
+Definition ctot (r : role) (k : stack rwc) : Z :=
+  c_own SW r k + c_own SR r k + c_ann SR r k + c_ann SW r k.
+
+Lemma shape_own_nonneg m t r k sd : shape m t r k -> 0 <= c_own sd r k.
+Proof.
+  intros H. destruct H; unfold c_own; cbn [tp]; try (destruct sd; cbn; lia);
+    try (destruct sd, sd0; cbn; unfold pq in *; lia).
+  - destruct H as [->|[sd' ->]]; [cbn; lia|destruct sd, sd'; cbn; lia].
+  - destruct sd, sd0, w; cbn; lia.
+  - destruct sd, sd0, w; cbn; lia.
+  - destruct sd, sd0, w; cbn; lia.
+  - destruct sd, sd0, w; cbn; lia.
+  - destruct sd, sd0, w; cbn; lia.
+  - destruct sd, sd0, w; cbn; lia.
+  - destruct sd, sd0, w; cbn; lia.
+Qed.
+
+Lemma shape_ctot m t r k : shape m t r k -> ctot r k <= 1.
+Proof.
+  intros H. destruct H; unfold ctot, c_own, c_ann; cbn [tp]; try (cbn; lia);
+    try (destruct sd; cbn; unfold pq in *; lia).
+  - destruct H as [->|[sd' ->]]; [cbn; lia|destruct sd'; cbn; lia].
+  - destruct sd, w; cbn; lia.
+  - destruct sd, w; cbn; lia.
+  - destruct sd, w; cbn; lia.
+  - destruct sd, w; cbn; lia.
+  - destruct sd, w; cbn; lia.
+  - destruct sd, w; cbn; lia.
+  - destruct sd, w; cbn; lia.
+Qed.
+
+Lemma counts_total s g :
+  f_wl (counts s g) + f_rc (counts s g) + f_wr (counts s g) + f_ww (counts s g)
+  = zsum (fun t => ctot (grole g t) (stk s t)) (nthr s).
+Proof. unfold counts, ctot. cbn [f_wl f_rc f_wr f_ww]. rewrite !zsum_add. reflexivity. Qed.
+
+Lemma counts_total_t s g t : InvG s g -> (t < nthr s)%nat ->
+  f_wl (counts s g) + f_rc (counts s g) + f_wr (counts s g) + f_ww (counts s g)
+  <= Z.of_nat (nthr s) - 1 + ctot (grole g t) (stk s t).
+Proof.
+  intros I Ht. rewrite counts_total.
+  set (f := fun u => ctot (grole g u) (stk s u)).
+  set (f' := fun u => if Nat.eqb u t then 1 else f u).
+  assert (E : zsum f' (nthr s) = zsum f (nthr s) + (f' t - f t)).
+  { apply zsum_upd1; auto. intros j Hj. unfold f'. destruct (Nat.eqb_spec j t); congruence. }
+  assert (L : zsum f' (nthr s) <= 1 * Z.of_nat (nthr s)).
+  { apply zsum_le. intros j _. unfold f'. destruct (Nat.eqb j t); [lia|]. unfold f. eapply shape_ctot. apply (i_shape _ _ I). }
+  unfold f' in E at 2. rewrite Nat.eqb_refl in E. fold (f t). lia.
+Qed.
+
+Lemma own_le_count s g sd t : InvG s g -> (t < nthr s)%nat ->
+  c_own sd (grole g t) (stk s t) <= match sd with SW => f_wl (counts s g) | SR => f_rc (counts s g) end.
+Proof.
+  intros I Ht. destruct sd; unfold counts; cbn [f_wl f_rc].
+  - apply (zsum_ge1 (fun u => c_own SR (grole g u) (stk s u))); auto.
+    intros j _. eapply shape_own_nonneg. apply (i_shape _ _ I).
+  - apply (zsum_ge1 (fun u => c_own SW (grole g u) (stk s u))); auto.
+    intros j _. eapply shape_own_nonneg. apply (i_shape _ _ I).
+Qed.
+
+Lemma own2_le_count s g sd t u : InvG s g -> (t < nthr s)%nat -> (u < nthr s)%nat -> t <> u ->
+  c_own sd (grole g t) (stk s t) + c_own sd (grole g u) (stk s u)
+  <= match sd with SW => f_wl (counts s g) | SR => f_rc (counts s g) end.
+Proof.
+  intros I Ht Hu Htu. destruct sd; unfold counts; cbn [f_wl f_rc].
+  - apply (zsum_ge2 (fun u => c_own SR (grole g u) (stk s u))); auto.
+    intros j _. eapply shape_own_nonneg. apply (i_shape _ _ I).
+  - apply (zsum_ge2 (fun u => c_own SW (grole g u) (stk s u))); auto.
+    intros j _. eapply shape_own_nonneg. apply (i_shape _ _ I).
+Qed.
+
+(* a popping fiber accounts for at least one unit of ownership that is not the stepping owner's *)
+Lemma popper_owns s g u : InvG s g -> (u < nthr s)%nat -> is_popper (stk s u) ->
+  exists sd v, (v < nthr s)%nat /\ 1 <= c_own sd (grole g v) (stk s v) /\
+               (grole g v = RIdle \/ exists sd', grole g v = RWait sd' Popped).
+Proof.
+  intros I Hu P. pose proof (i_shape _ _ I u) as Sh. pose proof (i_pop _ _ I u) as Po.
+  unfold pop_ok in Po.
+  remember (stk s u) as k0 eqn:Hk. remember (grole g u) as r0 eqn:Hr.
+  assert (F : forall sd' f, grole g f = RWait sd' Popped -> (f < nthr s)%nat ->
+            exists sd v, (v < nthr s)%nat /\ 1 <= c_own sd (grole g v) (stk s v) /\
+               (grole g v = RIdle \/ exists sd', grole g v = RWait sd' Popped)).
+  { intros sd' f Q2 Q3. exists sd', f. split; auto. split; [|right; eauto].
+    pose proof (shape_own_nonneg _ _ _ _ sd' (i_shape _ _ I f)) as N.
+    rewrite Q2 in *. unfold c_own in *. rewrite side_eqb_refl in *. cbn [b2z] in *.
+    pose proof (i_shape _ _ I f) as Sf. rewrite Q2 in Sf. inversion Sf; subst; cbn [tp]; lia. }
+  destruct Sh; cbn in P; try tauto; unfold pq in *.
+  1-5: (exists sd, u; split; [auto|]; split; [|left; auto]; rewrite <- Hk, <- Hr; unfold c_own; cbn [tp]; rewrite Nat.eqb_refl; lia).
+  - destruct Po as (_ & _ & _ & f & (sd' & Q1 & Q2 & Q3) & _). eauto.
+  - destruct Po as (_ & _ & f & (sd' & Q1 & Q2 & Q3) & _). eauto.
+  - destruct Po as (_ & _ & f & (sd' & Q1 & Q2 & Q3) & _). eauto.
+  - destruct Po as ((sd' & Q1 & Q2 & Q3) & _). eauto.
+  - destruct Po as ((sd' & Q1 & Q2 & Q3) & _). eauto.
+Qed.
+
+(* a successful CAS on the state word *)
+Lemma inv_cas s g t n k' r' :
+  InvG s g -> (t < nthr s)%nat -> ~ is_wlink (stk s t) -> ~ is_asleep (stk s t) ->
+  shape (mem s) t r' k' -> role_compat (grole g t) r' ->
+  n = rw_pack (counts (mk s t (set_word (mem s) 0 n) k') (gset_role g t r')) ->
+  fields_ok (counts (mk s t (set_word (mem s) 0 n) k') (gset_role g t r')) ->
+  (f_wl (counts (mk s t (set_word (mem s) 0 n) k') (gset_role g t r')) = 1 ->
+   f_rc (counts (mk s t (set_word (mem s) 0 n) k') (gset_role g t r')) = 0) ->
+  (0 < f_ww (counts (mk s t (set_word (mem s) 0 n) k') (gset_role g t r')) +
+       f_wr (counts (mk s t (set_word (mem s) 0 n) k') (gset_role g t r')) ->
+   0 < f_wl (counts (mk s t (set_word (mem s) 0 n) k') (gset_role g t r')) +
+       f_rc (counts (mk s t (set_word (mem s) 0 n) k') (gset_role g t r'))) ->
+  (0 < f_rc (counts (mk s t (set_word (mem s) 0 n) k') (gset_role g t r')) ->
+   0 < f_wr (counts (mk s t (set_word (mem s) 0 n) k') (gset_role g t r')) ->
+   0 < f_ww (counts (mk s t (set_word (mem s) 0 n) k') (gset_role g t r'))) ->
+  ~ is_wlink k' -> ~ is_held k' ->
+  pop_ok (mk s t (set_word (mem s) 0 n) k') (gset_role g t r') t ->
+  (is_popper k' -> forall u, u <> t -> ~ is_popper (stk s u)) ->
+  InvG (mk s t (set_word (mem s) 0 n) k') (gset_role g t r').
+Proof.
+  intros I Ht Nw Na Sh Rc W1 W2 W3 W4 W5 Nw' Nh Po Pp.
+  apply inv_gen; auto.
+  - apply (i_ownt _ _ I).
+  - eapply shape_frame; eauto.
+  - unfold held_ok. cbn [mk stk]. rewrite upd_same. destruct k' as [|[] ?]; cbn in Nh; tauto.
+Qed.
+
+(* the new counts after the stepping fiber changed role and stack *)
+Lemma counts_step s g t m' k' r' : (t < nthr s)%nat ->
+  counts (mk s t m' k') (gset_role g t r') =
+  {| f_wl := f_wl (counts s g) + (c_own SW r' k' - c_own SW (grole g t) (stk s t));
+     f_rc := f_rc (counts s g) + (c_own SR r' k' - c_own SR (grole g t) (stk s t));
+     f_wr := f_wr (counts s g) + (c_ann SR r' k' - c_ann SR (grole g t) (stk s t));
+     f_ww := f_ww (counts s g) + (c_ann SW r' k' - c_ann SW (grole g t) (stk s t)) |}.
+Proof.
+  intros Ht. rewrite (counts_change s g _ _ t); auto.
+  - cbn [mk gset_role stk grole]. rewrite !upd_same. reflexivity.
+  - intros u Hu. cbn [mk gset_role stk grole]. rewrite !upd_other by auto. auto.
+Qed.
+
+Lemma cas_word s g e : InvG s g -> (word (mem s) 0 =? e) = true -> e = rw_pack (counts s g) /\ rw_unpack e = counts s g.
+Proof.
+  intros I B. apply Z.eqb_eq in B. rewrite (i_word _ _ I) in B. subst e. split; auto.
+  apply rw_unpack_pack. apply (i_fields _ _ I).
+Qed.
+
+Lemma field_room s g t : InvG s g -> (t < nthr s)%nat -> Z.of_nat (nthr s) < 2 ^ 21 ->
+  ctot (grole g t) (stk s t) <= 0 ->
+  f_wl (counts s g) + f_rc (counts s g) + f_wr (counts s g) + f_ww (counts s g) + 1 < FW.
+Proof.
+  intros I Ht G C0. pose proof (counts_total_t s g t I Ht). rewrite FW_val. change (2 ^ 21) with 2097152 in G. lia.
+Qed.
+
+Ltac count_simpl Hk Hr :=
+  rewrite <- ?Hk, <- ?Hr; unfold c_own, c_ann; cbn [tp side_eqb b2z qof Nat.eqb];
+  unfold set_wl, set_rc, set_wr, set_ww; cbn [f_wl f_rc f_wr f_ww].
+
+Lemma announce_inv s g t sd p k e :
+  Z.of_nat (nthr s) < 2 ^ 21 -> InvG s g -> (t < nthr s)%nat ->
+  [WCasW 0 e (announce sd e) 5; FC (LCasW sd p k)] = stk s t -> RIdle = grole g t ->
+  run_ok (mem s) t -> busy sd e = true -> (word (mem s) 0 =? e) = true ->
+  InvG (mk s t (set_word (mem s) 0 (announce sd e)) [WSaving (qof sd); FC (LWoken sd p k)])
+       (gset_role g t (RWait sd Pre)).
+Proof.
+  intros G I Ht Hk Hr RO Bz B.
+  destruct (cas_word _ _ _ I B) as [Ee Eu].
+  pose proof (i_fields _ _ I) as (F1 & F2 & F3 & F4).
+  assert (C0 : ctot (grole g t) (stk s t) <= 0) by (rewrite <- Hk, <- Hr; cbn; lia).
+  pose proof (field_room s g t I Ht G C0) as Room.
+  pose proof (i_excl _ _ I) as Ex. pose proof (i_held_lock _ _ I) as Hl. pose proof (i_rdead _ _ I) as Rd.
+  set (C := counts s g) in *.
+  assert (NC : counts (mk s t (set_word (mem s) 0 (announce sd e)) [WSaving (qof sd); FC (LWoken sd p k)])
+                      (gset_role g t (RWait sd Pre)) =
+               match sd with SR => set_wr C (f_wr C + 1) | SW => set_ww C (f_ww C + 1) end).
+  { rewrite counts_step by auto. fold C. destruct sd; count_simpl Hk Hr; f_equal; lia. }
+  assert (AN : announce sd e = rw_pack (match sd with SR => set_wr C (f_wr C + 1) | SW => set_ww C (f_ww C + 1) end)).
+  { unfold announce. rewrite Eu. destruct sd; rewrite finc_small by lia; reflexivity. }
+  assert (BZ : 0 < f_wl C + f_rc C).
+  { unfold busy in Bz. destruct sd.
+    - rewrite Eu in Bz. destruct (f_wl C =? 0) eqn:E1; [|apply Z.eqb_neq in E1; lia].
+      apply Hl. destruct (f_ww C =? 0) eqn:E2; [|apply Z.eqb_neq in E2; lia].
+      destruct (f_wr C =? 0) eqn:E3; [discriminate|apply Z.eqb_neq in E3; lia].
+    - destruct (Z.eq_dec (f_wl C + f_rc C) 0) as [Z0|]; [|lia].
+      destruct (Z.eq_dec (f_ww C + f_wr C) 0) as [Z1|]; [|apply Hl; lia].
+      exfalso. assert (E0 : e = 0) by (rewrite Ee; unfold rw_pack; fold C; lia). rewrite E0 in Bz. cbn in Bz. discriminate. }
+  apply inv_cas; auto; rewrite ?NC.
+  - rewrite <- Hk. cbn. tauto.
+  - rewrite <- Hk. cbn. tauto.
+  - constructor; auto.
+  - right. rewrite <- Hr. auto.
+  - destruct sd; unfold fields_ok, set_wr, set_ww; cbn [f_wl f_rc f_wr f_ww]; repeat split; lia.
+  - destruct sd; unfold set_wr, set_ww; cbn [f_wl f_rc f_wr f_ww]; auto.
+  - destruct sd; unfold set_wr, set_ww; cbn [f_wl f_rc f_wr f_ww]; intros; lia.
+  - destruct sd; unfold set_wr, set_ww; cbn [f_wl f_rc f_wr f_ww]; intros A1 A2; [|lia].
+    unfold busy in Bz. rewrite Eu in Bz. fold C in Bz.
+    destruct (f_ww C =? 0) eqn:E2; [|apply Z.eqb_neq in E2; lia].
+    destruct (f_wl C =? 0) eqn:E1; [|apply Z.eqb_neq in E1; assert (f_wl C = 1) by lia; lia].
+    destruct (f_wr C =? 0) eqn:E3; [discriminate|apply Z.eqb_neq in E3; apply Rd; lia].
+  - destruct sd; cbn; tauto.
+  - destruct sd; cbn; tauto.
+  - apply pop_ok_nonpopper. cbn [mk stk]. rewrite upd_same. destruct sd; cbn; tauto.
+  - destruct sd; cbn; tauto.
+Qed.
 
 Section Main.
 Variable s : st. Variable g : ghost. Variable t : nat.
@@ -292,7 +499,7 @@ Proof.
   - (* gotw *) stp Hk. local g t (ROwn SW) Hk Hr.
     apply (start_shape _ t p (S k) HWrite); auto.
   - (* ucheck *) stp Hk. local g t (ROwn sd) Hk Hr. constructor; auto.
-  - (* usnap *) destruct (release sd (word (mem s) 0)) as [n h] eqn:B. stp Hk. rewrite B. cbn [app].
+  - (* usnap *) destruct (release sd (word (mem s) 0)) as [n h] eqn:B. stp Hk.
     local g t (ROwn sd) Hk Hr. econstructor; eauto.
   - (* ucas *) destruct (word (mem s) 0 =? e) eqn:B.
     + admit.
@@ -303,14 +510,13 @@ Proof.
   - (* knext *) pose proof (i_pop _ _ I t) as Po. unfold pop_ok in Po. rewrite <- Hk in Po.
     destruct (nnext (mem s) h) as [|nx'] eqn:B.
     + assert (C : 0 <? cnt = true) by (apply Z.ltb_lt; unfold pq in *; lia).
-      stp Hk. rewrite B. cbn [app]. rewrite C. local g t RIdle Hk Hr. constructor; auto.
-    + stp Hk. rewrite B. local g t RIdle Hk Hr.
+      stp Hk. local g t RIdle Hk Hr. constructor; auto.
+    + stp Hk. local g t RIdle Hk Hr.
       * constructor; auto.
       * unfold pop_ok. cbn [mk stk mem]. rewrite upd_same. auto.
-  - (* kspin1 *) stp Hk. local g t RIdle Hk Hr.
-    destruct H as (-> & _). constructor; auto. repeat split; auto. apply H.
+  - (* kspin1 *) pose proof H as (A & _). stp Hk. rewrite A. local g t RIdle Hk Hr. constructor; auto.
   - (* kspin2 *) assert (C : wc <? cnt = true) by (apply Z.ltb_lt; unfold pq in *; lia).
-    stp Hk. cbn [kloop]. rewrite C. local g t RIdle Hk Hr. constructor; auto.
+    stp Hk. local g t RIdle Hk Hr. constructor; auto.
   - (* ksethead *) admit.
   - (* kdata *) pose proof (i_pop _ _ I t) as Po. unfold pop_ok in Po. rewrite <- Hk in Po.
     stp Hk. local g t RIdle Hk Hr.
@@ -346,7 +552,7 @@ Proof.
     { intros m1 k1 E1. unfold step. rewrite <- Hk. cbn [kstep].
       rewrite run_slots_empty by (apply (i_slots _ _ I)). unfold sleep. cbn [pend set_fstate].
       destruct (pend (mem s) t); inversion E1; subst; reflexivity. }
-    destruct A as [->|[->|->]]; rewrite D in STP.
+    destruct A as [-> | [-> | ->]]; rewrite D in STP.
     + rewrite (STP _ _ eq_refl). local g t (RWait sd InL) Hk Hr.
       constructor; cbn; rewrite ?upd_same; auto; discriminate.
     + rewrite (STP _ _ eq_refl). local g t (RWait sd Popped) Hk Hr.
@@ -355,7 +561,7 @@ Proof.
       * constructor; cbn; rewrite ?upd_same; auto.
       * right. rewrite <- Hr. auto.
   - (* asleep *) assert (B : blocked (mem s) t = false).
-    { unfold status_of in R. rewrite <- Hk in R. cbn in R. destruct (t <? nthr s)%nat; [|discriminate].
+    { unfold status_of in R. rewrite <- Hk in R. cbn [kstatus] in R. destruct (t <? nthr s)%nat; [|discriminate].
       destruct (blocked (mem s) t); [discriminate|reflexivity]. }
     assert (w = Woken) as -> by (destruct w; congruence).
     stp Hk. exists (gset_role g t (RWait sd Resumed)). apply inv_local; auto; local_prems Hk Hr.
@@ -363,11 +569,13 @@ Proof.
     + right. rewrite <- Hr. auto.
     + intros _ sd'. rewrite <- Hr. discriminate.
   - (* resume *) stp Hk. local g t (RWait sd Resumed) Hk Hr.
-    constructor. apply run_ok_fstate; auto.
+    apply sh_ryread. apply run_ok_fstate; auto.
   - (* ryread *) pose proof H as (A & B). stp Hk. rewrite A. local g t (RWait sd Resumed) Hk Hr. constructor; auto.
   - (* rynext *) stp Hk. exists (gset_role g t (ROwn sd)). apply inv_local; auto; local_prems Hk Hr.
     + destruct sd; constructor; auto.
     + right. rewrite <- Hr. auto.
+    + intros sd0. rewrite <- Hk, <- Hr. destruct sd, sd0; reflexivity.
+    + intros sd0. rewrite <- Hk, <- Hr. destruct sd, sd0; reflexivity.
     + destruct sd; cbn; tauto.
     + destruct sd; cbn; tauto.
     + apply pop_ok_nonpopper. cbn [mk stk]. rewrite upd_same. destruct sd; cbn; tauto.
